@@ -703,3 +703,4 @@ def check(repo, rep, tier):
   c20b.rule_pinv_spectrum(repo, rep)
   c20b.rule_metric_init_table(repo, rep)
   c20b.rule_components_init_table(repo, rep)
+  c20b.rule_sqrt_domain(repo, rep)
